@@ -79,13 +79,19 @@ CONSTANTS Mode,        \* "manual" | "start"
           MaxHeap,     \* bound: length of the array (emptied entries included)
           MaxOps,      \* bound on the number of calls (manual) / commands (start); 0 = unbounded (manual only)
           AllowRemove, \* manual: remove() calls are generated
-          Interval,    \* manual: 0 = no interval generator, else its period (uses identifier IntervalId)
+          Interval,    \* manual: 0 = no interval generator, else the period of generator 1 (identifier IntervalId(1))
+          Interval2,   \* manual: 0 = no second interval generator of the same scheduler, else its period (same
+                       \*   duration type as the first; own stop token; own identifier IntervalId(2))
           NC,          \* start: number of coroutines (1 = the awaited one)
           MainRes,     \* start: how the awaited operation may end: subset of {"void", "val", "exc", "drop"}
           MainVia,     \* start: how its end reaches start()'s callback: subset of {"direct", "queued"}
           MaxRuns      \* start: start() calls on one scheduler object (2: the object is used again after start() returned)
 
-IntervalId == 9        \* &tag inside the interval() coroutine frame: distinct from every client identifier
+\* &tag inside the frame of an interval() coroutine (:308): distinct from every client identifier AND unique per
+\* generator -- every generator cancels (stop token) only its own sleeps
+IntervalId(g) == 10 - g
+Gens == {1, 2}
+Period(g) == IF g = 1 THEN Interval ELSE Interval2
 CB == -2               \* start: the callback_await coroutine of start() (:255/:273) as an entity of the coro_queue
 
 VARIABLES
@@ -95,7 +101,8 @@ VARIABLES
     nops,      \* number of calls so far
     destroyed, \* ~scheduler ran
     now,       \* the (virtual) clock; constant 0 in manual mode
-    gen,       \* manual, interval(): [st, stp]  st: "none" | "sleep" | "yield" | "done"; stp: stop requested
+    gen,       \* manual, interval(): per generator g \in Gens [st, stp]  st: "none" | "sleep" | "yield" | "done";
+               \*   stp: stop requested on its token.  The sleep of generator g has fut[k].co = -g
     \* start mode
     rq,        \* coro_queue: FIFO of ready entities (0 = worker coroutine, c >= 1 = client coroutines)
     run,       \* entity that executes now, -1 nobody
@@ -130,13 +137,13 @@ FreeSlot == CHOOSE k \in Slots : ~Pending(k) /\ \A j \in Slots : j < k => Pendin
 NewFut(f, k, tp, co) == [f EXCEPT ![k] = [st |-> "pending", tp |-> tp, sa |-> now, co |-> co]]
 Free(f, k) == IF k = 0 THEN f ELSE [f EXCEPT ![k] = FreeRec]
 B(b) == IF b THEN 1 ELSE 0
-NoGen == [st |-> "none", stp |-> FALSE]
+NoGen == [g \in Gens |-> [st |-> "none", stp |-> FALSE]]
 NoWake == [st |-> "ready", wst |-> "none", wat |-> 0]
 
 Live(h) == {i \in 1..Len(h) : h[i].k # 0}
 LiveWithId(h, id) == {i \in Live(h) : h[i].id = id}
 CanSchedule == HasFree /\ Len(heap) < MaxHeap
-AllTps == TPs \cup (IF Interval # 0 THEN {Interval} ELSE {}) \cup {Inf}
+AllTps == TPs \cup {Period(g) : g \in {h \in Gens : Period(h) # 0}} \cup {Inf}
 
 Init ==
     /\ heap = <<>> /\ fut = [k \in Slots |-> FreeRec]
@@ -161,10 +168,10 @@ Tick == nops' = (IF MaxOps = 0 THEN nops ELSE nops + 1)
 
 (* the interval generator resumed because its sleep ended: normally -> next = now()+dur; co_yield
    (scheduler.h:319-320) => "yield"; with an exception -> it leaves the loop (:324) => "done" *)
-GenAfter(g, k, st) ==
-    IF k # 0 /\ fut[k].co = -1
-      THEN [g EXCEPT !.st = IF st = "done" THEN "yield" ELSE "done"]
-      ELSE g
+GenAfter(gn, k, st) ==
+    IF k # 0 /\ fut[k].co < 0
+      THEN [gn EXCEPT ![-fut[k].co].st = IF st = "done" THEN "yield" ELSE "done"]
+      ELSE gn
 
 (* a sleep until tp is requested, in any API form: sleep_until(tp,id) :152-156, sleep_for(d,id) with
    now()+d = tp :170-173, schedule(id,promise,tp) :89-97 -- all end in schedule().
@@ -214,32 +221,33 @@ Cancel(id, x, k) ==
     /\ UNCHANGED destroyed /\ StartUnch
     /\ Tick
 
-(* interval(dur, token), scheduler.h:306-327, in manual mode; the clock reads 0.
-   IntervalCall: the client calls the generator (`gen()`): it runs to sleep_until(next, &tag) (:317-318),
+(* interval(dur, token), scheduler.h:306-327, in manual mode; the clock reads 0.  Up to two generators of
+   the same scheduler, each made with its own stop token.
+   IntervalCall: the client calls generator g (`gen()`): it runs to sleep_until(next, &tag) (:317-318),
    or, when the token is already stopped, leaves the loop and finishes (:316).  Output: notified *)
-IntervalCall(ntf) ==
-    /\ CanCall /\ Interval # 0 /\ gen.st \in {"none", "yield"}
-    /\ IF gen.stp
+IntervalCall(g, ntf) ==
+    /\ CanCall /\ Period(g) # 0 /\ gen[g].st \in {"none", "yield"}
+    /\ IF gen[g].stp
          THEN /\ ntf = 0
-              /\ gen' = [gen EXCEPT !.st = "done"]
+              /\ gen' = [gen EXCEPT ![g].st = "done"]
               /\ UNCHANGED <<heap, fut>>
          ELSE /\ CanSchedule
-              /\ ntf = B(NotifyNeeded(heap, now + Interval))
-              /\ heap' = HeapInsert(heap, [tp |-> now + Interval, id |-> IntervalId, k |-> FreeSlot])
-              /\ fut' = NewFut(fut, FreeSlot, now + Interval, -1)
-              /\ gen' = [gen EXCEPT !.st = "sleep"]
+              /\ ntf = B(NotifyNeeded(heap, now + Period(g)))
+              /\ heap' = HeapInsert(heap, [tp |-> now + Period(g), id |-> IntervalId(g), k |-> FreeSlot])
+              /\ fut' = NewFut(fut, FreeSlot, now + Period(g), -g)
+              /\ gen' = [gen EXCEPT ![g].st = "sleep"]
     /\ UNCHANGED destroyed /\ StartUnch
     /\ Tick
 
-(* request_stop() on the token: the stop callback (:309-311), if the generator has started (the
-   callback object lives in its frame), calls cancel(&tag).  Output k: the slot cancelled or 0 *)
-IntervalStop(k) ==
-    /\ CanCall /\ Interval # 0 /\ ~gen.stp
-    /\ LET r == IF gen.st = "none" THEN [heap |-> heap, k |-> 0] ELSE RemoveLk(heap, IntervalId) IN
+(* request_stop() on the token of generator g: the stop callback (:309-311), if the generator has started (the
+   callback object lives in its frame), calls cancel(&tag) with ITS tag.  Output k: the slot cancelled or 0 *)
+IntervalStop(g, k) ==
+    /\ CanCall /\ Period(g) # 0 /\ ~gen[g].stp
+    /\ LET r == IF gen[g].st = "none" THEN [heap |-> heap, k |-> 0] ELSE RemoveLk(heap, IntervalId(g)) IN
         /\ k = r.k
         /\ heap' = r.heap
         /\ fut' = Free(fut, r.k)
-        /\ gen' = [GenAfter(gen, r.k, "exc") EXCEPT !.stp = TRUE]
+        /\ gen' = [GenAfter(gen, r.k, "exc") EXCEPT ![g].stp = TRUE]
     /\ UNCHANGED destroyed /\ StartUnch
     /\ Tick
 
@@ -250,7 +258,7 @@ Destroy ==
     /\ destroyed' = TRUE
     /\ fut' = [k \in Slots |-> FreeRec]
     /\ heap' = <<>>
-    /\ gen' = IF gen.st = "sleep" THEN [gen EXCEPT !.st = "done"] ELSE gen
+    /\ gen' = [g \in Gens |-> IF gen[g].st = "sleep" THEN [gen[g] EXCEPT !.st = "done"] ELSE gen[g]]
     /\ UNCHANGED nops /\ StartUnch
 
 (* a new scheduler (and interval generator, stop source) is constructed: histories continue over
@@ -266,8 +274,8 @@ ManualNext ==
                         \/ \E v \in AllTps : GetExpired(t, "time", v)
     \/ \E id \in CancelIds, k \in Slots0 : Remove(id, k)
     \/ \E id \in CancelIds, x \in Excs, k \in Slots0 : Cancel(id, x, k)
-    \/ \E ntf \in {0, 1} : IntervalCall(ntf)
-    \/ \E k \in Slots0 : IntervalStop(k)
+    \/ \E g \in Gens, ntf \in {0, 1} : IntervalCall(g, ntf)
+    \/ \E g \in Gens, k \in Slots0 : IntervalStop(g, k)
     \/ Destroy
     \/ Construct
 
@@ -515,7 +523,7 @@ PromptManual ==
    then hit exactly one such sleep (the actions complete exactly the slot the operator returns, with
    exactly the requested exception) *)
 CancelHitsOne ==
-    \A id \in CancelIds \cup {IntervalId} :
+    \A id \in CancelIds \cup {IntervalId(g) : g \in Gens} :
         LET r == RemoveLk(heap, id)
             cand == {heap[i].k : i \in LiveWithId(heap, id)}
         IN /\ (r.k # 0) <=> (cand # {})
@@ -533,8 +541,19 @@ NothingAfterDestroy == destroyed => heap = <<>> /\ \A k \in Slots : ~Pending(k)
 (* interval(): the generator sleeps iff its sleep is pending; a stop request never leaves it parked
    in a sleep (that would hang whoever awaits it) *)
 IntervalConsistent ==
-    /\ (gen.st = "sleep") <=> (\E k \in Slots : Pending(k) /\ fut[k].co = -1)
-    /\ gen.stp => gen.st # "sleep"
+    \A g \in Gens :
+      /\ (gen[g].st = "sleep") <=> (\E k \in Slots : Pending(k) /\ fut[k].co = -g)
+      /\ Cardinality({k \in Slots : Pending(k) /\ fut[k].co = -g}) <= 1
+      /\ gen[g].stp => gen[g].st # "sleep"
+      \* the identifier of a generator's sleeps is its own: nobody else's entry carries it
+      /\ \A i \in Live(heap) : (heap[i].id = IntervalId(g)) <=> (fut[heap[i].k].co = -g)
+(* cancellation through a stop token hits exactly its target: the stopped generator's pending sleep (if it
+   sleeps) is completed and that generator ends; the other generator is not touched -- it keeps sleeping until
+   its own deadline / yields / is stopped through its own token *)
+StopHitsOwn ==
+    [][\A g \in Gens : (gen'[g].stp /\ ~gen[g].stp) =>
+          /\ \A h \in Gens \ {g} : gen'[h] = gen[h]
+          /\ Completed = {k \in Slots : Pending(k) /\ fut[k].co = -g}]_vars
 
 (* start mode ------------------------------------------------------------ *)
 
